@@ -730,6 +730,18 @@ func (fx *FnExec) execAppend(in ssa.Instruction, c *ssa.CallCommon, args []Val, 
 		content = fx.havoc("appcontent", "(Array Int "+es+")")
 		// when nothing is appended the content is unchanged
 		fx.assumeGlobal("(=> (= " + tlen + " 0) (= " + content + " (select " + h + " (s.arr " + s + "))))")
+		// the elements that were there stay: stated for a destination of statically known small
+		// length (a slice literal, append([]T{x}, more...)), element by element
+		if sl0, ok := c.Args[0].(*ssa.Slice); ok && sl0.Low == nil && sl0.High == nil {
+			if al0, ok := sl0.X.(*ssa.Alloc); ok {
+				if arr0, ok := al0.Type().Underlying().(*types.Pointer).Elem().Underlying().(*types.Array); ok && arr0.Len() <= 8 {
+					for i := int64(0); i < arr0.Len(); i++ {
+						idx := fmt.Sprintf("(+ (s.off %s) %d)", s, i)
+						fx.assumeGlobal("(= (select " + content + " " + idx + ") (select (select " + h + " (s.arr " + s + ")) " + idx + "))")
+					}
+				}
+			}
+		}
 	}
 	fx.setHeap(name, sort, "(store "+h+" "+arr+" "+content+")")
 	setRes(Val{S: fx.define("appres", "Slice", "(mk-slice "+arr+" (s.off "+s+") "+newLen+" "+ite(fits, "(s.cap "+s+")", ncap)+")")})
